@@ -10,6 +10,8 @@ import OptreeModel.Model.Ravel
 import OptreeModel.Model.Dataclass
 import OptreeModel.Model.Alias
 import OptreeModel.Model.Fault
+import OptreeModel.Model.Memory
+import OptreeModel.Generated.Access
 import OptreeModel.Generated.Fresh
 import OptreeModel.Generated.Twins
 import OptreeModel.Generated.Hash
@@ -402,6 +404,41 @@ def evalOp (st : DriverState) : Sexp → Res Sexp
       let otherDt : Arr := { flat with dtype := if flat.dtype == 8 then 6 else 8 }
       pure (encOk [encArr flat, encR (unravel lib u flat), encR (unravel lib u longer),
                    (match unravel lib u otherDt with | .ok _ => .atom "accepted" | .error e => encErr e)])
+  | .list [.atom "c16loop", .atom kind, n, at_, adv] => do
+      -- flatten of a `kind` container with n children; the callback invoked for child `at` mutates it
+      let n ← Res.ofDec (decNat n)
+      let at_ ← Res.ofDec (decNat at_)
+      let site := match kind with
+        | "list" => "src/treespec/flatten.cpp:ListGetItem(handle)#1"
+        | "deque" => "src/treespec/flatten.cpp:ListGetItem(list)#1"
+        | "tuple" => "src/treespec/flatten.cpp:TupleGetItem(handle)#1"
+        | _ => ""
+      let desc ← match Generated.accessSites.find? (·.1 == site) with
+        | some (_, d) => pure d
+        | Option.none => Res.bad "unknown loop kind"
+      let a ← match adv with
+        | .atom "keep" => pure Adv.keep
+        | .atom "clear" => pure Adv.clear
+        | .list [.atom "shrink", m] => do pure (Adv.shrinkTo (← Res.ofDec (decNat m)))
+        | .list [.atom "grow", m] => do pure (Adv.growBy (← Res.ofDec (decNat m)))
+        | _ => Res.bad "adversary expected"
+      let out := loopRun desc (fun i => if i == at_ then a else .keep) n n 0 n
+      pure (encOk [match out with
+        | .done => .atom "done"
+        | .raised e => l [.atom "raised", .atom (errName e)]
+        | .fault => .atom "fault"])
+  | .list [.atom "c16walk", .str name, depth] => do
+      -- a self-recursive treespec walker on a chain treespec whose leaf is at depth `depth`
+      let depth ← Res.ofDec (decNat depth)
+      let guarded ← match Generated.recursiveWalkers.find? (·.1 == name) with
+        | some (_, g) => pure g
+        | Option.none => Res.bad "unknown walker"
+      let limit := ({} : Cfg).maxDepth
+      let out := walk guarded limit 15000 depth 0
+      pure (encOk [match out with
+        | .done => .atom "done"
+        | .raised e => l [.atom "raised", .atom (errName e)]
+        | .fault => .atom "fault"])
   | .list (.atom "aliashist" :: _subject :: ops) => do
       let decOp : Sexp → Dec AOp := fun x => match x with
         | .list [.atom "insp", m] => do pure (.inspect (← decNat m))
